@@ -156,3 +156,13 @@ Theorem C20_check_sound_history maxAge calls final :
   c20_check (ConcCase maxAge calls final) = [] -> lin_witness maxAge final [] calls.
 Proof. exact (check_conc_sound maxAge calls final). Qed.
 Print Assumptions C20_check_sound_history.
+
+(* ... and about both endpoints of the median server (GetAllMedianValues, GetMedianValue) on the real
+   server object: each answers what the property prescribes for the updates submitted before the call *)
+Theorem C20_check_sound_server maxAge ups ps readT all singles :
+  c20_check (ServerCase maxAge ups ps readT all singles) = [] ->
+  (forall m, aget all m = served_spec (fresh_of_history (flat_updates ups) m (readT - maxAge)) ps m) /\
+  (forall m r, In (m, r) singles ->
+     r = served_spec (fresh_of_history (flat_updates ups) m (readT - maxAge)) (filter (fun p => mp_id p =? m) ps) m).
+Proof. exact (check_server_sound maxAge ups ps readT all singles). Qed.
+Print Assumptions C20_check_sound_server.
